@@ -508,6 +508,48 @@ func c18OtherLoaders(c *Ctx, b []byte, ref mon.Outcome) {
 			c.Violation("load:nil-model-without-error", "NewModelFromZipFile: nil model and nil error")
 		}
 	}
+	// entries that cannot even be opened: a compression method archive/zip does not know, a
+	// local file header that is damaged
+	for variant := 0; variant < 3; variant++ {
+		var lb bytes.Buffer
+		lw := zip.NewWriter(&lb)
+		method := uint16(zip.Store)
+		if variant == 0 {
+			method = uint16(c.R.PickInt(99, 12, 14, 0xffff))
+		}
+		fw, err := lw.CreateRaw(&zip.FileHeader{Name: "model.onnx", Method: method, CompressedSize64: uint64(len(b)), UncompressedSize64: uint64(len(b)), CRC32: crc32.ChecksumIEEE(b)})
+		if err != nil {
+			continue
+		}
+		_, _ = fw.Write(b)
+		if lw.Close() != nil {
+			continue
+		}
+		arch := lb.Bytes()
+		if variant == 1 && len(arch) > 4 { // local file header signature destroyed
+			arch[0], arch[1] = 'X', 'Y'
+		}
+		if variant == 2 && len(arch) > 30 { // local header: name length field inflated
+			arch[26], arch[27] = 0xff, 0xff
+		}
+		lr, err := zip.NewReader(bytes.NewReader(arch), int64(len(arch)))
+		if err != nil || len(lr.File) != 1 {
+			continue
+		}
+		var m *gonnx.Model
+		o := mon.Capture(nil, func() ([]tensor.Tensor, error) {
+			var err error
+			m, err = gonnx.NewModelFromZipFile(lr.File[0])
+			return nil, err
+		})
+		c.Eval(1)
+		c.Count("loader:NewModelFromZipFile(entry that cannot be opened)", 1)
+		if o.Kind == mon.Panic {
+			c.Violation("load:panic", "NewModelFromZipFile panicked on an entry that cannot be opened (variant %d, method %d): %s", variant, method, o.Describe())
+		} else if o.Kind != mon.Error && m == nil {
+			c.Violation("load:nil-model-without-error", "NewModelFromZipFile: nil model and nil error")
+		}
+	}
 	if c.Idx%160 == 5 {
 		o := mon.Capture(nil, func() ([]tensor.Tensor, error) {
 			m, err := gonnx.NewModelFromFile(path + ".does-not-exist")
